@@ -102,7 +102,7 @@ def line_of(boxes):
 
 
 def generate(rng, tier):
-    n = {"quick": 260, "thorough": 6000, "search": 1500}.get(tier, 260)
+    n = {"quick": 500, "thorough": 6000, "search": 1500}.get(tier, 260)
     cases = []
     modes = ["lattice", "lattice", "aligned", "rotated", "rotated", "spread", "chain", "degenerate", "degenerate", "parallel"]
     for i in range(n):
